@@ -1113,6 +1113,16 @@ func c23BuildCases(r *findings.Run) []c23Case {
 			cases = append(cases, c23CSVCase("row-counts", fmt.Sprintf("3 columns rows=%d", n), []string{"i", "s", "f"}, rows, f, true))
 		}
 	}
+	// long cells: longer than a 4 KiB / 64 KiB read, plain and quoted (with an embedded newline), early and late in the file
+	for _, ln := range []int{4090, 4096, 5000, 65530, 70000} {
+		rows := make([][]string, 40)
+		for i := range rows {
+			rows[i] = []string{strconv.Itoa(i), fmt.Sprintf("s%d", i)}
+		}
+		rows[1][1] = strings.Repeat("y", ln)
+		rows[37][1] = strings.Repeat("z", ln/2) + "\n" + strings.Repeat("z", ln/2)
+		cases = append(cases, c23CSVCase("long-cell", fmt.Sprintf("40 rows, rows 1 and 37 carry a %d byte cell", ln), []string{"i", "s"}, rows, fmts[0], true))
+	}
 	{
 		// column subsets / orders; unicode header
 		rows := make([][]string, 30)
